@@ -10,6 +10,7 @@ import (
 	"github.com/polydawn/go-timeless-api/rio"
 	"github.com/polydawn/rio/fs"
 	"github.com/polydawn/rio/lib/guid"
+	"github.com/polydawn/rio/lib/verifhook"
 	"github.com/polydawn/rio/warehouse"
 	"github.com/polydawn/rio/warehouse/util"
 	. "github.com/warpfork/go-errcat"
@@ -122,6 +123,7 @@ func (whCtrl Controller) OpenWriter() (warehouse.BlobstoreWriteController, error
 		return wc, Errorf(rio.ErrWarehouseUnwritable, "failed to reserve temp space in warehouse: %s", err)
 	}
 	wc.stream = file
+	verifhook.Point("kvfs.openwriter.created", wc.stagePath.String())
 	// Return the controller -- which has methods to either commit+close, or cancel+close.
 	return wc, nil
 }
@@ -133,6 +135,9 @@ type WriteController struct {
 }
 
 func (wc *WriteController) Write(bs []byte) (int, error) {
+	if err := verifhook.Point("kvfs.write"); err != nil {
+		return 0, err
+	}
 	return wc.stream.Write(bs)
 }
 
@@ -140,6 +145,7 @@ func (wc *WriteController) Write(bs []byte) (int, error) {
 	Cancel the current write.  Close the stream, and remove any temporary files.
 */
 func (wc *WriteController) Close() error {
+	verifhook.Point("kvfs.close", wc.stagePath.String())
 	wc.stream.Close()
 	return os.Remove(wc.stagePath.String())
 }
@@ -150,8 +156,14 @@ func (wc *WriteController) Close() error {
 	Closes the writer and invalidates any future use.
 */
 func (wc *WriteController) Commit(wareID api.WareID) error {
+	if err := verifhook.Point("kvfs.commit.begin", wc.stagePath.String()); err != nil {
+		return Errorf(rio.ErrWarehouseUnwritable, "failed to commit to file: %s", err)
+	}
 	// Close the file.
 	if err := wc.stream.Close(); err != nil {
+		return Errorf(rio.ErrWarehouseUnwritable, "failed to commit to file: %s", err)
+	}
+	if err := verifhook.Point("kvfs.commit.closed", wc.stagePath.String()); err != nil {
 		return Errorf(rio.ErrWarehouseUnwritable, "failed to commit to file: %s", err)
 	}
 	// Compute final path.
@@ -170,8 +182,12 @@ func (wc *WriteController) Commit(wareID api.WareID) error {
 		finalPath = finalPath.Join(fs.MustRelPath(wareID.Hash))
 	}
 	// Move into place.
+	if err := verifhook.Point("kvfs.commit.rename", wc.stagePath.String(), finalPath.String()); err != nil {
+		return Errorf(rio.ErrWarehouseUnwritable, "failed to commit to file: %s", err)
+	}
 	if err := os.Rename(wc.stagePath.String(), finalPath.String()); err != nil {
 		return Errorf(rio.ErrWarehouseUnwritable, "failed to commit to file: %s", err)
 	}
+	verifhook.Point("kvfs.commit.renamed", finalPath.String())
 	return nil
 }
